@@ -130,6 +130,7 @@ func (ex *Exec) verifyFunction(fn *ssa.Function, con *Contract) (rep *FuncReport
 	ex.factBlk = nil
 	ex.curBlk = nil
 	ex.inputs = nil
+	ex.private = nil
 	ex.pureSeen = map[string]bool{}
 	st := &State{reach: True(), cells: map[*ssa.Alloc]Val{}, heap: newHeap("")}
 	var args []Val
@@ -296,16 +297,8 @@ func (ex *Exec) frameObligations(fr *Frame, kind string, entry, fin *State, modC
 				unsupp("modifies %s: %v", text, pc.err)
 			}
 			oenv.info = pc.info
-			ex.spec++
-			v := oenv.eval(pc.expr)
-			ex.spec--
-			switch x := v.(type) {
-			case *Term:
-				mods = append(mods, modItem{kind: "loc", addr: x})
-			case *Agg:
-				if len(x.F) == 2 {
-					mods = append(mods, modItem{kind: "loc", addr: x.F[1].(*Term)})
-				}
+			if root := ex.objectRoot(&oenv, pc); root != nil {
+				mods = append(mods, modItem{kind: "loc", addr: root})
 			}
 			continue
 		}
